@@ -21,6 +21,9 @@ type Env struct {
 	local func(name string) *Val
 	pkg   *ssa.Package // package whose scope resolves constants/globals
 	depth int
+	// localFirst: names of locals (loop-head values) shadow parameters of the same name (loop invariants)
+	localFirst bool
+	bound      map[string]bool // quantifier-bound names (never resolved as locals)
 }
 
 func (env *Env) with(name string, v *Val) *Env {
@@ -30,6 +33,11 @@ func (env *Env) with(name string, v *Val) *Env {
 		n.vars[k] = x
 	}
 	n.vars[name] = v
+	n.bound = map[string]bool{}
+	for k := range env.bound {
+		n.bound[k] = true
+	}
+	n.bound[name] = true
 	return &n
 }
 
@@ -186,6 +194,13 @@ func (vc *VC) compile(env *Env, n *SNode) *Val {
 }
 
 func (vc *VC) resolve(env *Env, name string) *Val {
+	if env.localFirst && env.local != nil {
+		if _, bound := env.bound[name]; !bound {
+			if v := env.local(name); v != nil {
+				return v
+			}
+		}
+	}
 	if v, ok := env.vars[name]; ok {
 		return v
 	}
@@ -435,7 +450,9 @@ func (vc *VC) specIndex(env *Env, x, i *Val, n *SNode) *Val {
 	case KSlice:
 		et := x.T.Underlying().(*types.Slice).Elem()
 		l := layoutOf(et)
-		return vc.load(env.heap, l, et, x.C[0], bvBin("bvadd", x.C[1], mulOff(ix, l.N)))
+		r := vc.load(env.heap, l, et, x.C[0], bvBin("bvadd", x.C[1], mulOff(ix, l.N)))
+		vc.specLoadedWF(r, env.heap)
+		return r
 	case KString:
 		return vc.load(env.heap, layoutOf(types.Typ[types.Uint8]), types.Typ[types.Uint8], x.C[0], bvBin("bvadd", x.C[1], ix))
 	case KAgg:
@@ -444,13 +461,17 @@ func (vc *VC) specIndex(env *Env, x, i *Val, n *SNode) *Val {
 			sfail("index of non-array %s", n)
 		}
 		l := layoutOf(at.Elem())
-		return vc.load(x.H, l, at.Elem(), x.C[0], bvBin("bvadd", x.C[1], mulOff(ix, l.N)))
+		r := vc.load(x.H, l, at.Elem(), x.C[0], bvBin("bvadd", x.C[1], mulOff(ix, l.N)))
+		vc.specLoadedWF(r, x.H)
+		return r
 	case KPtr:
 		if x.T != nil {
 			if pt, ok := x.T.Underlying().(*types.Pointer); ok {
 				if at, ok := pt.Elem().Underlying().(*types.Array); ok {
 					l := layoutOf(at.Elem())
-					return vc.load(env.heap, l, at.Elem(), x.C[0], bvBin("bvadd", x.C[1], mulOff(ix, l.N)))
+					r := vc.load(env.heap, l, at.Elem(), x.C[0], bvBin("bvadd", x.C[1], mulOff(ix, l.N)))
+					vc.specLoadedWF(r, env.heap)
+					return r
 				}
 			}
 		}
@@ -543,6 +564,15 @@ func (vc *VC) selectField(env *Env, x *Val, name string) *Val {
 // specLoadedWF: heap invariant for reference-like values read in a spec expression (every reference
 // stored in a heap is below that heap's allocation counter). Only for closed terms.
 func (vc *VC) specLoadedWF(v *Val, h *Heap) {
+	if vc.intMode && v.K == KBV && len(v.C) == 1 && !strings.Contains(v.C[0], "!") {
+		// integer cells hold values of their Go type
+		key := "rng:" + v.C[0]
+		if !vc.trusted[key] {
+			vc.trusted[key] = true
+			vc.assume(vc.intRange(v.C[0], v.W, v.Signed))
+		}
+		return
+	}
 	switch v.K {
 	case KPtr, KSlice, KString, KIface:
 		for _, c := range v.C {
@@ -625,6 +655,7 @@ func (vc *VC) compileCall(env *Env, n *SNode) *Val {
 		need(1)
 		e2 := *env
 		e2.heap = env.old
+		e2.localFirst = false // old(x): parameters denote their entry values
 		return vc.compile(&e2, args[0])
 	case "len":
 		need(1)
